@@ -17,6 +17,35 @@ TRUSTED_BASE = [
 ]
 
 
+def par(cmd, text, env=None, timeout=14400, nproc=None):
+    """run a line-by-line filter over `text` in parallel chunks (output lines correspond 1:1 to input lines)"""
+    lines = text.splitlines()
+    n = nproc or min(16, os.cpu_count() or 4)
+    if len(lines) < 400:
+        return sh(cmd, stdin=text.encode(), env=env, timeout=timeout)
+    size = (len(lines) + n - 1) // n
+    chunks = [lines[i:i + size] for i in range(0, len(lines), size)]
+    e = dict(os.environ)
+    if env:
+        e.update(env)
+    procs = []
+    for c in chunks:
+        pr = subprocess.Popen(cmd, stdin=subprocess.PIPE, stdout=subprocess.PIPE, stderr=subprocess.PIPE, env=e)
+        procs.append(pr)
+    import threading
+    outs = [None] * len(chunks)
+    def feed(k):
+        o, er = procs[k].communicate(("\n".join(chunks[k]) + "\n").encode(), timeout=timeout)
+        outs[k] = (procs[k].returncode, o.decode("utf-8", "replace"), er.decode("utf-8", "replace"))
+    th = [threading.Thread(target=feed, args=(k,)) for k in range(len(chunks))]
+    for t in th:
+        t.start()
+    for t in th:
+        t.join()
+    rc = max(abs(o[0]) for o in outs)
+    return rc, "".join(o[1] for o in outs), "".join(o[2] for o in outs)
+
+
 def sh(cmd, cwd=None, env=None, stdin=None, timeout=None):
     e = dict(os.environ)
     e["CARGO_NET_OFFLINE"] = "true"
@@ -194,14 +223,19 @@ def proof_obligations(ctx):
 # ---------------------------------------------------------------- streams
 
 def canon(line, policy):
-    """canonical form of a result line for comparison"""
+    """canonical form of a result line for comparison: `err <variant> <rest>` -> `err <rest>` (variant kept as a class only
+    where the property constrains it)"""
     if line.startswith("err"):
+        parts = line.split(" ", 2)
+        v = parts[1] if len(parts) > 1 else ""
+        rest = parts[2] if len(parts) > 2 else ""
         if policy == "class":
-            v = line[4:].strip()
             cls = {"crypto": "auth", "invalidToken": "auth", "base64": "auth", "invalidKey": "auth",
                    "payload": "payload", "claims": "claims"}.get(v, v)
-            return "err " + cls
-        return "err"
+            return ("err " + cls + " " + rest).strip()
+        if policy == "full":
+            return line
+        return ("err " + rest).strip()
     return line
 
 
@@ -216,15 +250,34 @@ def run_stream(ctx, name, gen_args, policy="okerr", oracle=None, pm=PM, ops=None
             ctx.k_broken.append({"kind": "generator", "stream": name, "detail": err[-1500:]})
             return
         ops = out
+    if " | " in ops:
+        # two-stage lines `<model-only op> | <template with $>`: the model (specification instance) builds the artefact,
+        # which is then offered to the implementation and to the implementation model
+        lines = ops.splitlines()
+        idx = [k for k, l in enumerate(lines) if " | " in l]
+        stage1 = "\n".join(lines[k].split(" | ", 1)[0] for k in idx) + "\n"
+        rc, built, err1 = sh([DRIVER], stdin=stage1.encode(), env={"LEAN_STACK_SIZE": "1048576"}, timeout=14400)
+        bl = built.splitlines()
+        if rc != 0 or len(bl) != len(idx):
+            ctx.k_broken.append({"kind": "model-driver-stage1", "stream": name, "detail": err1[-1500:]})
+            return
+        for k, b in zip(idx, bl):
+            tmpl = lines[k].split(" | ", 1)[1]
+            if b.startswith("ok "):
+                lines[k] = tmpl.replace("$", b[3:].split(" ")[0])
+            else:
+                lines[k] = "# stage1 failed: " + lines[k][:200] + " -> " + b
+                ctx.k_broken.append({"kind": "stage1", "stream": name, "op": lines[k][:400]})
+        ops = "\n".join(lines) + "\n"
     open(ops_path, "w").write(ops)
-    rc, impl, err = sh([pm, "exec"], stdin=ops.encode(), timeout=14400)
+    rc, impl, err = par([pm, "exec"], ops, timeout=14400)
     if rc != 0:
         # the process died (abort / signal): bisect to the offending line
         lines = ops.splitlines()
         bad = find_crash(pm, lines)
         ctx.o_fail.append({"stream": name, "op": bad, "impl": "process-died rc=%d" % rc, "clause": "no abort / crash", "key": "%s/crash" % name})
         return
-    rc, model, err2 = sh([DRIVER], stdin=ops.encode(), env={"LEAN_STACK_SIZE": "1048576"}, timeout=14400)
+    rc, model, err2 = par([DRIVER], ops, env={"LEAN_STACK_SIZE": "1048576"}, timeout=14400)
     if rc != 0:
         ctx.k_broken.append({"kind": "model-driver", "stream": name, "detail": err2[-1500:]})
         return
@@ -244,9 +297,22 @@ def run_stream(ctx, name, gen_args, policy="okerr", oracle=None, pm=PM, ops=None
             st["ok"] += 1
         elif i.startswith("err"):
             st["err"] += 1
-            st["err_kinds"][i] = st["err_kinds"].get(i, 0) + 1
+            ek = " ".join(i.split(" ")[:2])[:40]
+            st["err_kinds"][ek] = st["err_kinds"].get(ek, 0) + 1
         elif i.startswith("panic"):
             st["panic"] += 1
+        if o.startswith("o."):
+            # oracle-only operation: evaluated on the implementation, no model counterpart
+            if oracle:
+                r = oracle(o, i)
+                if r:
+                    clause, key = r
+                    ctx.o_fail.append({"stream": name, "op": o, "impl": i[:600], "model": "-", "clause": clause, "key": key})
+            if nontrivial:
+                c = nontrivial(o, i)
+                if c is not None:
+                    ctx.distinct.add((name, c))
+            continue
         if i == "bad-op" or m == "bad-op":
             if i != m:
                 nk += 1
